@@ -262,7 +262,15 @@ func vfC20Agents(e *vfEnv, r *vfResult, idx int) { //nolint:cyclop
 		t.SignalA["10.0.9.1"] = "host"
 	}
 	s.desc["topology"] = t
-	if err := s.setupPair(t, vfSideCfg{MaxBinding: 1000, Renomination: true, TieBreaker: 41}, vfSideCfg{MaxBinding: 1000, Renomination: true, TieBreaker: 42}, true, false); err != nil {
+	// one session in three: both agents are configured with a custom attribute type for the nomination value
+	var nomAttr uint16
+	if rng.IntN(3) == 0 {
+		nomAttr = []uint16{0xC0F1, 0x0030, 0xFF01}[rng.IntN(3)]
+		vfNomAttr.Store(uint32(nomAttr))
+		defer vfNomAttr.Store(0)
+	}
+	s.desc["nomination_attribute_type"] = fmt.Sprintf("%#x", nomAttr)
+	if err := s.setupPair(t, vfSideCfg{MaxBinding: 1000, Renomination: true, TieBreaker: 41, NomAttr: nomAttr}, vfSideCfg{MaxBinding: 1000, Renomination: true, TieBreaker: 42, NomAttr: nomAttr}, true, false); err != nil {
 		r.inconclusive(1)
 
 		return
@@ -361,7 +369,7 @@ func vfC20Agents(e *vfEnv, r *vfResult, idx int) { //nolint:cyclop
 
 		return
 	}
-	r.distinct(fmt.Sprintf("c20agents/a=%d/b=%d/renoms=%d/lossy=%v", len(t.AIPs), len(t.BIPs), nRe, lossy))
+	r.distinct(fmt.Sprintf("c20agents/a=%d/b=%d/renoms=%d/lossy=%v/customattr=%v", len(t.AIPs), len(t.BIPs), nRe, lossy, nomAttr != 0))
 	// the highest value the controlling agent issued whose request was not lost
 	maxDelivered := uint32(0)
 	var maxPair string
@@ -551,6 +559,8 @@ func TestVerifC20(t *testing.T) {
 				vfC20Errors(e, r, i)
 			case i%10 == 7:
 				vfC20Auto(e, r, i)
+			case i%20 == 13:
+				vfC03RenominateRace(e, r, i) // "only a controlling agent can renominate", also while its role is being switched
 			case i%2 == 0:
 				vfC20Peer(e, r, i)
 			default:
